@@ -93,6 +93,23 @@ func c10Documents(tier string) []c10Doc {
 		addParam(d, "/a", "get", J{"in": "query", "name": "q", "type": "string", "default": sc.S, "description": sc.S})
 		out = append(out, c10Doc{Name: "string:" + sc.Name, Doc: d})
 	}
+	// unusual entries in the string lists of the document (media types, tags): empty entries, duplicates,
+	// surrounding blanks - at top level (inherited by the operations) and at operation level
+	{
+		d := baseDoc()
+		d["consumes"] = A{"text/plain", ""}
+		d["produces"] = A{"application/json", ""}
+		out = append(out, c10Doc{Name: "lists:empty entry (top level)", Doc: d})
+		d = baseDoc()
+		at(d, "paths", "/a", "get")["produces"] = A{"", "application/json"}
+		at(d, "paths", "/a", "get")["tags"] = A{"a", ""}
+		out = append(out, c10Doc{Name: "lists:empty entry (operation level, tags)", Doc: d})
+		d = baseDoc() // (duplicate media types are not valid Swagger; blanks are)
+		d["consumes"] = A{"application/json", " application/xml "}
+		d["produces"] = A{"application/json", "text/plain "}
+		at(d, "paths", "/a", "get")["tags"] = A{"a", " b "}
+		out = append(out, c10Doc{Name: "lists:surrounding blanks", Doc: d})
+	}
 	// names the generator would synthesise
 	{
 		d := baseDoc()
